@@ -69,6 +69,9 @@ def run_c03(ctx, tier=None, seed=None):
         # harness filters with an f64 re-computation and sends flagged + 1/2^14 sampled patterns to the driver
         std_pipe(ctx, 'sweep32', 'fl', 'sweep', '', env={'VERIF_SWEEP_UNITS': os.environ.get('VERIF_SWEEP_UNITS', '24')},
                  tier=tier, seed=seed, release=True)
+        # optimisation level is a configuration too (constant folding of intrinsics, `cfg!(debug_assertions)`): the
+        # non-default base-unit lines once more from an optimised build
+        std_pipe(ctx, 'conv-bases-release', 'fl', 'conv', 'others', env=env, tier=tier, seed=seed, release=True)
 
 
 spec('C03',
@@ -90,6 +93,8 @@ def run_c16(ctx, tier=None, seed=None):
     env.update(deep(ctx, tier, VERIF_NRANDOM=512))
     std_pipe(ctx, 'rnd-bases', 'fl', 'conv', 'others', env=env, tier=tier, seed=seed)
     pow_lines(ctx, tier=tier, seed=seed, exact=False)
+    if (tier or ctx.tier) == 'thorough':
+        std_pipe(ctx, 'rnd-bases-release', 'fl', 'conv', 'others', env=env, tier=tier, seed=seed, release=True)
 
 
 spec('C16',
@@ -141,6 +146,8 @@ def run_c07(ctx, tier=None, seed=None):
     std_pipe(ctx, 'hist-all-types-noauto', 'wide-noauto', 'hist', '', tier=tier, seed=seed, only=only)
     if (tier or ctx.tier) == 'thorough':
         # the remaining storage types of the crate (u8 i8 u16 i16 u128 i128 usize rational32 rational): a fifth harness build
+        std_pipe(ctx, 'ops-same-base-release', 'fl', 'ops', 'same', tier=tier, seed=seed, release=True,
+                 only=r'^bin [^ ]+ (add|sub|rem|adda|suba|rema|mul|div|tt[^ ]*|ti[^ ]*) ')
         std_pipe(ctx, 'hist-wide2', 'wide2', 'hist', '', tier=tier, seed=seed, only=r'^(b2|sc|un) (i8|i16|i128|u8|u16|u128|usize|rational32|rational) (%s) [a-z_]+ si ' % forms)  # default base units only: the coefficients of the other base sets (1000, 3600, …) are not representable in 8-bit storage
 
 
@@ -161,6 +168,7 @@ def run_c10(ctx, tier=None, seed=None):
     std_pipe(ctx, 'ops-cmp-noauto', 'fl-noauto', 'ops', 'same', tier=tier, seed=seed, only=r'^bin [^ ]+ (eq|ne|lt|le|gt|ge|pcmp) ')
     pow_lines(ctx, tier=tier, seed=seed)
     if (tier or ctx.tier) == 'thorough':
+        std_pipe(ctx, 'ops-cmp-release', 'fl', 'ops', 'all', tier=tier, seed=seed, release=True, only=r'^bin [^ ]+ (eq|ne|lt|le|gt|ge|pcmp) ')
         std_pipe(ctx, 'hist-cmp-wide2', 'wide2', 'hist', '', tier=tier, seed=seed, only=r'^b2 (i8|i16|i128|u8|u16|u128|usize|rational32|rational) (%s) [a-z_]+ si ' % CMP_FORMS)
 
 
